@@ -263,36 +263,44 @@ End LV.
 
 (* ---------------- the suffix languages ---------------- *)
 Definition ok_o {A} (W : A -> Prop) (o : option A) : Prop := match o with Some a => W a | None => True end.
-Definition L_loc (s : str) : Prop :=
-  exists lo w, ok_o (fun l => wf_loc l = true) lo /\ forallb is_ws w = true /\ s = r_opt r_loc lo ++ w.
-Definition L_dev (s : str) : Prop := exists dv t, ok_o (wf_lv dev_words) dv /\ L_loc t /\ s = r_opt r_lv dv ++ t.
-Definition L_post (s : str) : Prop := exists po t, ok_o wf_post po /\ L_dev t /\ s = r_opt r_post po ++ t.
-Definition L_pre (s : str) : Prop := exists pr t, ok_o (wf_lv pre_words) pr /\ L_post t /\ s = r_opt r_lv pr ++ t.
-
-Lemma loc_dev t : L_loc t -> L_dev t.   Proof. intros H. exists None, t. cbn. auto. Qed.
-Lemma dev_post t : L_dev t -> L_post t. Proof. intros H. exists None, t. cbn. auto. Qed.
-Lemma post_pre t : L_post t -> L_pre t. Proof. intros H. exists None, t. cbn. auto. Qed.
-
-(* first characters of the strings of L_loc, L_dev, L_post *)
-Definition heads (t : str) : Prop :=
-  hdA fol t = true /\ hd_is is_digit t = false /\ hd_is (N.eqb 33) t = false /\ hd2_is 46 is_digit t = false.
 
 Lemma hdA_imp (q q' : char -> bool) s : (forall c, q c = true -> q' c = true) -> hdA q s = true -> hdA q' s = true.
 Proof. destruct s; cbn; auto. Qed.
 Lemma hdA_false (q q' : char -> bool) s : (forall c, q c = true -> q' c = false) -> hdA q s = true -> hd_is q' s = false.
 Proof. destruct s; cbn; auto. Qed.
-Lemma L_loc_hd t : L_loc t -> hdA h_loc t = true.
+Lemma nosteal t o t1 n t2 : hd_is is_sep t = false -> hd_is is_digit t = false ->
+  opt_sep t = (o, t1) -> span is_digit t1 = (n, t2) -> t1 = t /\ t2 = t.
+Proof. intros Hs Hd. rewrite opt_sep_none by assumption. intros [= <- <-]. rewrite span_none by assumption. now intros [= <- <-]. Qed.
+Lemma dev_low : forallb (hd_is is_lower) dev_words = true.   Proof. reflexivity. Qed.
+Lemma post_low : forallb (hd_is is_lower) post_words = true. Proof. reflexivity. Qed.
+Lemma pre_low : forallb (hd_is is_lower) pre_words = true.   Proof. reflexivity. Qed.
+
+(* first characters of the strings of the base language, L_dev, L_post *)
+Definition heads (t : str) : Prop :=
+  hdA fol t = true /\ hd_is is_digit t = false /\ hd_is (N.eqb 33) t = false /\ hd2_is 46 is_digit t = false.
+
+(* B is the language of what may follow the dev component: for Version it is  local? whitespace  (L_loc below), for
+   specifier operators that admit no local version it is whitespace only.  All that matters is how its strings start:
+   with '+', with whitespace, or not at all. *)
+Section Base.
+Variable B : str -> Prop.
+Hypothesis B_hd : forall t, B t -> hdA h_loc t = true.
+
+Definition L_dev (s : str) : Prop := exists dv t, ok_o (wf_lv dev_words) dv /\ B t /\ s = r_opt r_lv dv ++ t.
+Definition L_post (s : str) : Prop := exists po t, ok_o wf_post po /\ L_dev t /\ s = r_opt r_post po ++ t.
+Definition L_pre (s : str) : Prop := exists pr t, ok_o (wf_lv pre_words) pr /\ L_post t /\ s = r_opt r_lv pr ++ t.
+
+Lemma loc_dev t : B t -> L_dev t.   Proof. intros H. exists None, t. cbn. auto. Qed.
+Lemma dev_post t : L_dev t -> L_post t. Proof. intros H. exists None, t. cbn. auto. Qed.
+Lemma post_pre t : L_post t -> L_pre t. Proof. intros H. exists None, t. cbn. auto. Qed.
+
+Lemma B_nl t : B t -> hdA nl t = true.
+Proof. intros H. apply B_hd in H. revert H. apply hdA_imp. intros c H. now apply h_loc_facts in H. Qed.
+Lemma B_nsep t : B t -> hd_is is_sep t = false.
+Proof. intros H. apply B_hd in H. revert H. apply hdA_false. intros c H. now apply h_loc_facts in H. Qed.
+Lemma B_heads t : B t -> heads t /\ hd2_is 45 is_digit t = false.
 Proof.
-  intros (lo & w & Hlo & Hw & ->). destruct lo as [[s0 segs]|]; cbn [r_opt r_loc app hdA]; [reflexivity|].
-  destruct w as [|c w]; cbn [hdA forallb] in *; auto. apply andb_prop in Hw as [Hc _]. unfold h_loc. rewrite Hc. apply orb_true_r.
-Qed.
-Lemma L_loc_nl t : L_loc t -> hdA nl t = true.
-Proof. intros H. apply L_loc_hd in H. revert H. apply hdA_imp. intros c H. now apply h_loc_facts in H. Qed.
-Lemma L_loc_nsep t : L_loc t -> hd_is is_sep t = false.
-Proof. intros H. apply L_loc_hd in H. revert H. apply hdA_false. intros c H. now apply h_loc_facts in H. Qed.
-Lemma L_loc_heads t : L_loc t -> heads t /\ hd2_is 45 is_digit t = false.
-Proof.
-  intros H. pose proof (L_loc_nl _ H) as Hn. pose proof (L_loc_nsep _ H) as Hs. apply L_loc_hd in H.
+  intros H. pose proof (B_nl _ H) as Hn. pose proof (B_nsep _ H) as Hs. apply B_hd in H.
   repeat split.
   - revert Hn. apply hdA_imp, nl_fol.
   - revert H. apply hdA_false. intros c H. now apply h_loc_facts in H.
@@ -300,47 +308,40 @@ Proof.
   - apply hd2_false1. revert H. apply hdA_false. intros c H. apply h_loc_facts in H as (_ & _ & E & _). apply sep_46 in E as [E _]. now rewrite N.eqb_sym.
   - apply hd2_false1. revert H. apply hdA_false. intros c H. apply h_loc_facts in H as (_ & _ & E & _). apply sep_46 in E as [_ E]. now rewrite N.eqb_sym.
 Qed.
-Lemma nosteal t o t1 n t2 : hd_is is_sep t = false -> hd_is is_digit t = false ->
-  opt_sep t = (o, t1) -> span is_digit t1 = (n, t2) -> t1 = t /\ t2 = t.
-Proof. intros Hs Hd. rewrite opt_sep_none by assumption. intros [= <- <-]. rewrite span_none by assumption. now intros [= <- <-]. Qed.
-Lemma L_loc_steal t o t1 n t2 : L_loc t -> opt_sep t = (o, t1) -> span is_digit t1 = (n, t2) -> L_loc t2.
+Lemma B_steal t o t1 n t2 : B t -> opt_sep t = (o, t1) -> span is_digit t1 = (n, t2) -> B t2.
 Proof.
-  intros H E1 E2. destruct (nosteal _ _ _ _ _ (L_loc_nsep _ H) (proj1 (proj2 (proj1 (L_loc_heads _ H)))) E1 E2) as [_ ->]. exact H.
+  intros H E1 E2. destruct (nosteal _ _ _ _ _ (B_nsep _ H) (proj1 (proj2 (proj1 (B_heads _ H)))) E1 E2) as [_ ->]. exact H.
 Qed.
-Lemma L_loc_nomatch ws t o t1 : forallb (hd_is is_lower) ws = true -> L_loc t -> opt_sep t = (o, t1) -> nomatch (map lc t1) ws = true.
+Lemma B_nomatch ws t o t1 : forallb (hd_is is_lower) ws = true -> B t -> opt_sep t = (o, t1) -> nomatch (map lc t1) ws = true.
 Proof.
-  intros Hw H. rewrite opt_sep_none by now apply L_loc_nsep. intros [= <- <-]. apply nl_nomatch; auto. now apply L_loc_nl.
+  intros Hw H. rewrite opt_sep_none by now apply B_nsep. intros [= <- <-]. apply nl_nomatch; auto. now apply B_nl.
 Qed.
-
-Lemma dev_low : forallb (hd_is is_lower) dev_words = true.   Proof. reflexivity. Qed.
-Lemma post_low : forallb (hd_is is_lower) post_words = true. Proof. reflexivity. Qed.
-Lemma pre_low : forallb (hd_is is_lower) pre_words = true.   Proof. reflexivity. Qed.
 
 Lemma L_dev_heads t : L_dev t -> heads t /\ hd2_is 45 is_digit t = false.
 Proof.
-  intros (dv & t' & Hdv & Ht & ->). destruct dv as [l|]; cbn [r_opt ok_o app] in *; [|now apply L_loc_heads].
-  destruct (lv_heads _ dev_low l t' Hdv) as (A & B & C). repeat split; auto.
+  intros (dv & t' & Hdv & Ht & ->). destruct dv as [l|]; cbn [r_opt ok_o app] in *; [|now apply B_heads].
+  destruct (lv_heads _ dev_low l t' Hdv) as (A & B0 & C). repeat split; auto.
   apply (lv_fol dev_words); auto.
 Qed.
 Lemma L_dev_steal t o t1 n t2 : L_dev t -> opt_sep t = (o, t1) -> span is_digit t1 = (n, t2) -> L_dev t2.
 Proof.
   intros (dv & t' & Hdv & Ht & ->). destruct dv as [l|]; cbn [r_opt ok_o app] in *.
   - intros E1 E2. destruct (lv_steal _ dev_low _ _ _ _ _ _ Hdv E1 E2) as (l' & Hl' & ->). exists (Some l'), t'. cbn. auto.
-  - intros E1 E2. apply loc_dev. eapply L_loc_steal; eauto.
+  - intros E1 E2. apply loc_dev. eapply B_steal; eauto.
 Qed.
 Lemma L_dev_nomatch ws t o t1 : forallb (hd_is is_lower) ws = true -> (forall W T, In W dev_words -> nomatch (W ++ T) ws = true) ->
   L_dev t -> opt_sep t = (o, t1) -> nomatch (map lc t1) ws = true.
 Proof.
   intros Hw Hd (dv & t' & Hdv & Ht & ->). destruct dv as [l|]; cbn [r_opt ok_o app] in *.
   - rewrite (opt_sep_lv _ dev_low) by assumption. intros [= <- <-]. rewrite map_app. apply Hd. apply Hdv.
-  - now apply L_loc_nomatch.
+  - now apply B_nomatch.
 Qed.
 
 Lemma L_post_heads t : L_post t -> heads t.
 Proof.
   intros (po & t' & Hpo & Ht & ->). destruct po as [[d|l]|]; cbn [r_opt r_post ok_o wf_post app] in *.
   - repeat split; reflexivity.
-  - destruct (lv_heads _ post_low l t' Hpo) as (A & B & C). repeat split; auto. apply (lv_fol post_words); auto.
+  - destruct (lv_heads _ post_low l t' Hpo) as (A & B0 & C). repeat split; auto. apply (lv_fol post_words); auto.
   - now apply L_dev_heads.
 Qed.
 Lemma L_post_steal t o t1 n t2 : L_post t -> opt_sep t = (o, t1) -> span is_digit t1 = (n, t2) -> L_post t2.
@@ -353,47 +354,18 @@ Proof.
 Qed.
 
 (* ---------------- each optional scanner maps its language into the next one ---------------- *)
-Definition wf_segs (l : list (char * str)) : bool := forallb (fun cs => is_sep (fst cs) && wf_alnum (snd cs)) l.
-Lemma ws_hd_nalnum w : forallb is_ws w = true -> hd_is is_alnum_ci w = false.
-Proof. destruct w as [|c w]; cbn [forallb hd_is]; auto. intros H. apply andb_prop in H as [H _]. now apply ws_facts in H. Qed.
-Lemma segs_hd segs w : wf_segs segs = true -> forallb is_ws w = true -> hd_is is_alnum_ci (r_segs segs ++ w) = false.
-Proof.
-  destruct segs as [|[c d] segs]; cbn [wf_segs forallb r_segs app hd_is fst snd].
-  - intros _. apply ws_hd_nalnum.
-  - intros H _. apply andb_prop in H as [H _]. apply andb_prop in H as [H _]. now apply sep_facts in H.
-Qed.
-Lemma gnf_segs_ok segs w : wf_segs segs = true -> forallb is_ws w = true -> gnf_segs segs w = true.
-Proof.
-  intros Hs Hw. induction segs as [|[c d] segs IH]; cbn [gnf_segs].
-  - destruct w as [|x w]; auto. cbn [forallb] in Hw. apply andb_prop in Hw as [Hx _]. apply ws_facts in Hx as (_ & -> & _). reflexivity.
-  - cbn [wf_segs forallb fst snd] in Hs. apply andb_prop in Hs as [H Hs]. apply andb_prop in H as [H1 H2].
-    rewrite H1, H2, (segs_hd segs w Hs Hw), (IH Hs). reflexivity.
-Qed.
-Lemma stage_loc s : L_loc s -> exists lo s', p_opt p_loc s = (lo, s') /\ forallb is_ws s' = true.
-Proof.
-  intros (lo & w & Hlo & Hw & ->). unfold p_opt. destruct lo as [l|]; cbn [r_opt ok_o app] in *.
-  - rewrite p_loc_complete.
-    + eexists _, _. split; [reflexivity|assumption].
-    + unfold wf_loc in Hlo. apply andb_prop in Hlo as [H1 H2]. unfold gnf_loc.
-      rewrite H1, (segs_hd _ w H2 Hw), (gnf_segs_ok _ w H2 Hw). reflexivity.
-  - assert (E : p_loc w = None).
-    { unfold p_loc. destruct w as [|c w]; auto. cbn [forallb] in Hw. apply andb_prop in Hw as [Hc _].
-      apply ws_facts in Hc as (_ & _ & -> & _). reflexivity. }
-    rewrite E. eexists _, _. split; [reflexivity|assumption].
-Qed.
-
-Lemma stage_dev s : L_dev s -> exists dv s', p_opt (p_lv dev_words) s = (dv, s') /\ L_loc s'.
+Lemma stage_dev s : L_dev s -> exists dv s', p_opt (p_lv dev_words) s = (dv, s') /\ B s'.
 Proof.
   intros (dv & t & Hdv & Ht & ->). unfold p_opt. destruct dv as [l|]; cbn [r_opt ok_o app] in *.
-  - destruct (p_lv_lang dev_words dev_low L_loc) with (l := l) (t := t) as (a & s' & E & Hs'); auto.
-    + intros t0 H. now apply L_loc_heads in H as [(? & _) _].
-    + intros t0 H. now apply L_loc_heads in H as [(_ & ? & _) _].
-    + apply L_loc_steal.
+  - destruct (p_lv_lang dev_words dev_low B) with (l := l) (t := t) as (a & s' & E & Hs'); auto.
+    + intros t0 H. now apply B_heads in H as [(? & _) _].
+    + intros t0 H. now apply B_heads in H as [(_ & ? & _) _].
+    + apply B_steal.
     + apply dev_split.
     + rewrite E. eauto.
   - rewrite (p_lv_none dev_words t).
     + eauto.
-    + intros o t1. apply L_loc_nomatch; auto.
+    + intros o t1. apply B_nomatch; auto.
 Qed.
 
 Lemma stage_post s : L_post s -> exists po s', p_opt p_post s = (po, s') /\ L_dev s'.
@@ -444,11 +416,84 @@ Lemma L_pre_heads t : L_pre t ->
   hd_is is_digit t = false /\ hd_is (N.eqb 33) t = false /\ hd2_is 46 is_digit t = false.
 Proof.
   intros (pr & t' & Hpr & Ht & ->). destruct pr as [l|]; cbn [r_opt ok_o app] in *.
-  - destruct (lv_heads _ pre_low l t' Hpr) as (A & B & C). auto.
-  - apply L_post_heads in Ht as (_ & A & B & C). auto.
+  - destruct (lv_heads _ pre_low l t' Hpr) as (A & B0 & C). auto.
+  - apply L_post_heads in Ht as (_ & A & B0 & C). auto.
 Qed.
 
-(* ---------------- the mandatory front part ---------------- *)
+(* the three suffix scanners in a row *)
+Lemma stages T : L_pre T -> exists pr po dv s6 s7 s8,
+  p_opt (p_lv pre_words) T = (pr, s6) /\ p_opt p_post s6 = (po, s7) /\ p_opt (p_lv dev_words) s7 = (dv, s8) /\ B s8.
+Proof.
+  intros LT. destruct (stage_pre _ LT) as (pr & s6 & E6 & L6). destruct (stage_post _ L6) as (po & s7 & E7 & L7).
+  destruct (stage_dev _ L7) as (dv & s8 & E8 & L8). exists pr, po, dv, s6, s7, s8. auto.
+Qed.
+Lemma L_pre_intro pr po dv t : ok_o (wf_lv pre_words) pr -> ok_o wf_post po -> ok_o (wf_lv dev_words) dv -> B t ->
+  L_pre (r_opt r_lv pr ++ r_opt r_post po ++ r_opt r_lv dv ++ t).
+Proof.
+  intros H1 H2 H3 H4. exists pr, (r_opt r_post po ++ r_opt r_lv dv ++ t). split; auto. split; auto.
+  exists po, (r_opt r_lv dv ++ t). split; auto. split; auto. exists dv, t. auto.
+Qed.
+End Base.
+
+(* ---------------- the local version and trailing whitespace ---------------- *)
+Definition L_ws (s : str) : Prop := forallb is_ws s = true.
+Definition L_loc (s : str) : Prop :=
+  exists lo w, ok_o (fun l => wf_loc l = true) lo /\ forallb is_ws w = true /\ s = r_opt r_loc lo ++ w.
+Lemma L_ws_hd t : L_ws t -> hdA h_loc t = true.
+Proof.
+  unfold L_ws. destruct t as [|c w]; cbn [hdA forallb]; auto. intros Hw. apply andb_prop in Hw as [Hc _].
+  unfold h_loc. rewrite Hc. apply orb_true_r.
+Qed.
+Lemma L_loc_hd t : L_loc t -> hdA h_loc t = true.
+Proof.
+  intros (lo & w & Hlo & Hw & ->). destruct lo as [[s0 segs]|]; cbn [r_opt r_loc app hdA]; [reflexivity|]. now apply L_ws_hd.
+Qed.
+
+Definition wf_segs (l : list (char * str)) : bool := forallb (fun cs => is_sep (fst cs) && wf_alnum (snd cs)) l.
+Lemma ws_hd_nalnum w : forallb is_ws w = true -> hd_is is_alnum_ci w = false.
+Proof. destruct w as [|c w]; cbn [forallb hd_is]; auto. intros H. apply andb_prop in H as [H _]. now apply ws_facts in H. Qed.
+Lemma segs_hd segs w : wf_segs segs = true -> forallb is_ws w = true -> hd_is is_alnum_ci (r_segs segs ++ w) = false.
+Proof.
+  destruct segs as [|[c d] segs]; cbn [wf_segs forallb r_segs app hd_is fst snd].
+  - intros _. apply ws_hd_nalnum.
+  - intros H _. apply andb_prop in H as [H _]. apply andb_prop in H as [H _]. now apply sep_facts in H.
+Qed.
+Lemma gnf_segs_ok segs w : wf_segs segs = true -> forallb is_ws w = true -> gnf_segs segs w = true.
+Proof.
+  intros Hs Hw. induction segs as [|[c d] segs IH]; cbn [gnf_segs].
+  - destruct w as [|x w]; auto. cbn [forallb] in Hw. apply andb_prop in Hw as [Hx _]. apply ws_facts in Hx as (_ & -> & _). reflexivity.
+  - cbn [wf_segs forallb fst snd] in Hs. apply andb_prop in Hs as [H Hs]. apply andb_prop in H as [H1 H2].
+    rewrite H1, H2, (segs_hd segs w Hs Hw), (IH Hs). reflexivity.
+Qed.
+Lemma stage_loc s : L_loc s -> exists lo s', p_opt p_loc s = (lo, s') /\ forallb is_ws s' = true.
+Proof.
+  intros (lo & w & Hlo & Hw & ->). unfold p_opt. destruct lo as [l|]; cbn [r_opt ok_o app] in *.
+  - rewrite p_loc_complete.
+    + eexists _, _. split; [reflexivity|assumption].
+    + unfold wf_loc in Hlo. apply andb_prop in Hlo as [H1 H2]. unfold gnf_loc.
+      rewrite H1, (segs_hd _ w H2 Hw), (gnf_segs_ok _ w H2 Hw). reflexivity.
+  - assert (E : p_loc w = None).
+    { unfold p_loc. destruct w as [|c w]; auto. cbn [forallb] in Hw. apply andb_prop in Hw as [Hc _].
+      apply ws_facts in Hc as (_ & _ & -> & _). reflexivity. }
+    rewrite E. eexists _, _. split; [reflexivity|assumption].
+Qed.
+
+(* ---------------- the mandatory front part: v? (N!)? N(.N)*  is scanned exactly ---------------- *)
+Definition front_k {A} (k : option char -> option str -> str -> list str -> str -> option A) (s1 : str) : option A :=
+  let '(v, s2) := p_v s1 in
+  let '(d1, s3) := span is_digit s2 in
+  if negb (nonempty d1) then None else
+    let '(e, r0, s4) :=
+       if hd_is (N.eqb 33) s3 then let '(d2, t') := span is_digit (tl s3) in (Some d1, d2, t')
+       else (None, d1, s3) in
+    if negb (nonempty r0) then None else
+      let '(rs, s5) := p_rels (length s4) s4 in k v e r0 rs s5.
+Definition r_front (v : option char) (e : option str) (r0 : str) (rs : list str) : str :=
+  r_osep v ++ r_opt r_ep e ++ r0 ++ r_rels rs.
+Definition wf_front (v : option char) (e : option str) (r0 : str) (rs : list str) : Prop :=
+  (match v with Some c => lc c = 118 | None => True end) /\ (match e with Some x => wf_digits x = true | None => True end) /\
+  wf_digits r0 = true /\ forallb wf_digits rs = true.
+
 Lemma rels_hd l T : hd_is is_digit T = false -> hd_is is_digit (r_rels l ++ T) = false.
 Proof. destruct l; cbn [r_rels app hd_is]; auto. Qed.
 Lemma rels_hd33 l T : hd_is (N.eqb 33) T = false -> hd_is (N.eqb 33) (r_rels l ++ T) = false.
@@ -460,56 +505,82 @@ Proof.
   - now rewrite H2.
   - cbn [forallb] in Hl. apply andb_prop in Hl as [Hd Hl]. rewrite Hd, (rels_hd l T H1), (IH Hl). reflexivity.
 Qed.
-
-Theorem version_language_complete : forall sp, wf_spelling sp -> exists sp', parse_spelling (render sp) = Some sp'.
+(* the front part starts with v/V or a digit: never with whitespace *)
+Lemma front_hd v e r0 rs T : wf_front v e r0 rs -> exists c rest, r_front v e r0 rs ++ T = c :: rest /\ is_alnum_ci c = true.
 Proof.
-  intros sp (W1 & W2 & Wv & We & Wr0 & Wrs & Wpre & Wpost & Wdev & Wloc).
-  assert (LT : L_pre (t_pre sp)).
-  { exists (spre sp), (t_post sp). split; [exact Wpre|]. split; [|reflexivity].
-    exists (spost sp), (t_dev sp). split; [exact Wpost|]. split; [|reflexivity].
-    exists (sdev sp), (t_loc sp). split; [exact Wdev|]. split; [|reflexivity].
-    exists (sloc sp), (ws_r sp). split; [exact Wloc|]. split; [exact W2|reflexivity]. }
-  destruct (L_pre_heads _ LT) as (Td & T33 & T46).
-  destruct (stage_pre _ LT) as (pr & s6 & E6 & L6). destruct (stage_post _ L6) as (po & s7 & E7 & L7).
-  destruct (stage_dev _ L7) as (dv & s8 & E8 & L8). destruct (stage_loc _ L8) as (lo & s9 & E9 & L9).
+  intros (Wv & We & Wr0 & _). unfold r_front. destruct v as [c|]; cbn [r_osep app].
+  - eexists _, _. split; [reflexivity|]. unfold is_alnum_ci. rewrite Wv. apply orb_true_r.
+  - destruct e as [e|]; cbn [r_opt].
+    + unfold wf_digits in We. destruct e as [|d e]; [discriminate|]. cbn [nonempty forallb andb] in We.
+      apply andb_prop in We as [Hd _]. unfold r_ep. cbn [app]. eexists _, _. split; [reflexivity|]. unfold is_alnum_ci. now rewrite Hd.
+    + unfold wf_digits in Wr0. destruct r0 as [|d r]; [discriminate|]. cbn [nonempty forallb andb] in Wr0.
+      apply andb_prop in Wr0 as [Hd _]. cbn [app]. eexists _, _. split; [reflexivity|]. unfold is_alnum_ci. now rewrite Hd.
+Qed.
+Lemma front_not_ws v e r0 rs T : wf_front v e r0 rs -> hd_is is_ws (r_front v e r0 rs ++ T) = false.
+Proof. intros W. destruct (front_hd v e r0 rs T W) as (c & rest & -> & Hc). cbn [hd_is]. now apply alnum_not_ws. Qed.
+
+Lemma front_exact {A} (k : option char -> option str -> str -> list str -> str -> option A) v e r0 rs T :
+  wf_front v e r0 rs -> hd_is is_digit T = false -> hd_is (N.eqb 33) T = false -> hd2_is 46 is_digit T = false ->
+  front_k k (r_front v e r0 rs ++ T) = k v e r0 rs T.
+Proof.
+  intros W Td T33 T46. pose proof W as (Wv & We & Wr0 & Wrs).
   assert (Hr := Wr0). unfold wf_digits in Hr. apply andb_prop in Hr as [Hr1 Hr2].
-  assert (Zd : hd_is is_digit (t_rels sp) = false) by now apply rels_hd.
-  assert (Z33 : hd_is (N.eqb 33) (t_rels sp) = false) by now apply rels_hd33.
-  (* the text after the optional v starts with a digit *)
-  assert (Hn : exists d rest, t_num sp = d :: rest /\ is_digit d = true).
-  { unfold t_num. destruct (ep sp) as [e|]; cbn [r_opt].
-    - unfold wf_digits in We. destruct e as [|d e]; [discriminate|]. cbn [nonempty forallb andb] in We.
-      apply andb_prop in We as [Hd _]. unfold r_ep. cbn [app]. eauto.
-    - destruct (rel0 sp) as [|d r]; [discriminate|]. cbn [forallb] in Hr2. apply andb_prop in Hr2 as [Hd _]. cbn [app]. eauto. }
-  destruct Hn as (d0 & rest0 & En & Hd0).
-  assert (Hws : hd_is is_ws (t_v sp) = false).
-  { unfold t_v. destruct (vpre sp) as [c|]; cbn [r_osep app hd_is].
-    - apply alnum_not_ws. unfold is_alnum_ci. rewrite Wv. apply orb_true_r.
-    - rewrite En. cbn [hd_is]. apply alnum_not_ws. unfold is_alnum_ci. now rewrite Hd0. }
-  assert (Hv : p_v (t_v sp) = (vpre sp, t_num sp)).
-  { unfold t_v, p_v. destruct (vpre sp) as [c|]; cbn [r_osep app].
+  set (Z := r_rels rs ++ T).
+  assert (Zd : hd_is is_digit Z = false) by now apply rels_hd.
+  assert (Z33 : hd_is (N.eqb 33) Z = false) by now apply rels_hd33.
+  set (N0 := r_opt r_ep e ++ r0 ++ Z).
+  assert (E0 : r_front v e r0 rs ++ T = r_osep v ++ N0). { unfold r_front, N0, Z. now rewrite <- !app_assoc. }
+  assert (Hv : p_v (r_osep v ++ N0) = (v, N0)).
+  { destruct (front_hd None e r0 rs T) as (d0 & rest0 & En & Hd0). { unfold wf_front; auto. }
+    unfold r_front in En. cbn [r_osep app] in En. rewrite <- !app_assoc in En. fold Z in En. fold N0 in En.
+    unfold p_v. destruct v as [c|]; cbn [r_osep app].
     - now rewrite Wv, N.eqb_refl.
-    - rewrite En. apply digit_facts in Hd0 as (_ & _ & -> & _). reflexivity. }
-  rewrite render_eq. unfold parse_spelling.
-  rewrite span_complete by assumption. rewrite Hv. unfold t_num.
-  assert (Tail : exists sp', (let '(rs, s5) := p_rels (length (t_rels sp)) (t_rels sp) in
-      let '(pr, s6) := p_opt (p_lv pre_words) s5 in
-      let '(po, s7) := p_opt p_post s6 in
-      let '(dv, s8) := p_opt (p_lv dev_words) s7 in
-      let '(lo, s9) := p_opt p_loc s8 in
-      if forallb is_ws s9 then
-        Some {| ws_l := ws_l sp; vpre := vpre sp; ep := ep sp; rel0 := rel0 sp; rels := rs;
-                spre := pr; spost := po; sdev := dv; sloc := lo; ws_r := s9 |}
-      else None) = Some sp').
-  { unfold t_rels. rewrite p_rels_complete by (try apply r_rels_len; now apply gnf_rels_ok).
-    rewrite E6, E7, E8, E9, L9. eauto. }
-  destruct Tail as (sp' & Tail). exists sp'.
-  destruct (ep sp) as [e|] eqn:Ee; cbn [r_opt].
+    - rewrite En. destruct (lc d0 =? 118) eqn:Ev; auto. exfalso.
+      (* the head of N0 is a digit *)
+      revert En Ev. unfold N0. destruct e as [x|]; cbn [r_opt].
+      + unfold wf_digits in We. destruct x as [|d x]; [discriminate|]. cbn [nonempty forallb andb] in We.
+        apply andb_prop in We as [Hd _]. unfold r_ep. cbn [app]. intros [= <- _]. apply digit_facts in Hd as (_ & _ & -> & _). discriminate.
+      + destruct r0 as [|d r]; [discriminate|]. cbn [forallb] in Hr2. apply andb_prop in Hr2 as [Hd _]. cbn [app].
+        intros [= <- _]. apply digit_facts in Hd as (_ & _ & -> & _). discriminate. }
+  rewrite E0. unfold front_k. rewrite Hv. unfold N0.
+  assert (Tail : (let '(rs', s5) := p_rels (length Z) Z in k v e r0 rs' s5) = k v e r0 rs T).
+  { unfold Z. rewrite p_rels_complete by (try apply r_rels_len; now apply gnf_rels_ok). reflexivity. }
+  destruct e as [x|]; cbn [r_opt].
   - unfold r_ep. rewrite <- app_assoc. cbn [app].
     assert (He := We). unfold wf_digits in He. apply andb_prop in He as [He1 He2].
     rewrite span_complete by auto. rewrite He1. cbn [negb hd_is]. rewrite N.eqb_refl. cbn [tl].
     rewrite span_complete by assumption. cbn [negb]. rewrite Hr1. cbn [negb]. exact Tail.
   - cbn [app]. rewrite span_complete by assumption. rewrite Hr1. cbn [negb]. rewrite Z33. cbn [negb]. rewrite Hr1. cbn [negb]. exact Tail.
+Qed.
+
+(* ---------------- C12, completeness half ---------------- *)
+Lemma parse_spelling_front s : parse_spelling s =
+  let '(wl, s1) := span is_ws s in
+  front_k (fun v e r0 rs s5 =>
+      let '(pr, s6) := p_opt (p_lv pre_words) s5 in
+      let '(po, s7) := p_opt p_post s6 in
+      let '(dv, s8) := p_opt (p_lv dev_words) s7 in
+      let '(lo, s9) := p_opt p_loc s8 in
+      if forallb is_ws s9 then
+        Some {| ws_l := wl; vpre := v; ep := e; rel0 := r0; rels := rs;
+                spre := pr; spost := po; sdev := dv; sloc := lo; ws_r := s9 |}
+      else None) s1.
+Proof. reflexivity. Qed.
+
+Theorem version_language_complete : forall sp, wf_spelling sp -> exists sp', parse_spelling (render sp) = Some sp'.
+Proof.
+  intros sp (W1 & W2 & Wv & We & Wr0 & Wrs & Wpre & Wpost & Wdev & Wloc).
+  assert (WF : wf_front (vpre sp) (ep sp) (rel0 sp) (rels sp)) by (unfold wf_front; auto).
+  assert (LT : L_pre L_loc (t_pre sp)).
+  { apply (L_pre_intro L_loc (spre sp) (spost sp) (sdev sp) (t_loc sp)); auto. exists (sloc sp), (ws_r sp). auto. }
+  destruct (L_pre_heads _ L_loc_hd _ LT) as (Td & T33 & T46).
+  destruct (stages _ L_loc_hd _ LT) as (pr & po & dv & s6 & s7 & s8 & E6 & E7 & E8 & L8).
+  destruct (stage_loc _ L8) as (lo & s9 & E9 & L9).
+  assert (ER : render sp = ws_l sp ++ r_front (vpre sp) (ep sp) (rel0 sp) (rels sp) ++ t_pre sp).
+  { unfold render, r_front, t_pre, t_post, t_dev, t_loc. now rewrite <- !app_assoc. }
+  rewrite ER, parse_spelling_front.
+  rewrite span_complete by (auto; now apply front_not_ws).
+  rewrite front_exact by assumption. rewrite E6, E7, E8, E9, L9. eauto.
 Qed.
 Print Assumptions version_language_complete.
 
@@ -521,7 +592,7 @@ Proof.
   - intros (sp' & E). exists sp'. apply parse_spelling_sound in E as [R W]. auto.
 Qed.
 Print Assumptions version_language_iff.
-(* equivalently: every string of the language has a greedy normal form *)
+(* equivalently: every string of the language is the rendering of a tree that the scanner returns *)
 Corollary gnf_exists sp : wf_spelling sp -> exists sp', render sp' = render sp /\ wf_spelling sp' /\ parse_spelling (render sp') = Some sp'.
 Proof.
   intros W. destruct (version_language_complete sp W) as (sp' & E). exists sp'.
